@@ -146,12 +146,23 @@ func solveVC(vc *VC, prelude, dir string, timeoutS, seed int, twoSolvers bool) {
 	var results []solveResult
 	best := solveResult{status: "unknown"}
 	decided := 0
+	var grace <-chan time.Time
+collect:
 	for i := 0; i < len(solvers); i++ {
-		rr := <-ch
+		var rr solveResult
+		select {
+		case rr = <-ch:
+		case <-grace:
+			// thorough tier: the second opinion did not arrive within the grace period
+			break collect
+		}
 		results = append(results, rr)
 		if rr.status == "unsat" || rr.status == "sat" {
 			if decided == 0 {
 				best = rr
+				if twoSolvers {
+					grace = time.After(10 * time.Second)
+				}
 			} else if rr.status != best.status {
 				best = solveResult{status: "disagree", solver: best.solver + "/" + rr.solver, out: best.out + "\n---\n" + rr.out}
 				break
